@@ -482,6 +482,15 @@ def refusal_relations(body, ir, ok_variant="Ok"):
         if t["k"] != "switch":
             continue
         e, neg = _strip_not(ir.term_operand(bi, t["o"]))
+        if e[0] == "call" and len(e[2]) == 2 and e[1].split("::")[-1] in ("eq", "ne", "lt", "le", "gt", "ge") and \
+                ("PartialEq" in e[1] or "PartialOrd" in e[1] or "cmp::" in e[1] or "equality::" in e[1]):
+            opn = {"eq": "Eq", "ne": "Ne", "lt": "Lt", "le": "Le", "gt": "Gt", "ge": "Ge"}[e[1].split("::")[-1]]
+            a_, b_ = e[2]
+            while a_[0] in ("ref", "deref"):
+                a_ = a_[2] if a_[0] == "ref" else a_[1]
+            while b_[0] in ("ref", "deref"):
+                b_ = b_[2] if b_[0] == "ref" else b_[1]
+            e = ("bin", opn, a_, b_)
         if e[0] != "bin" or e[1] not in NEGATE:
             continue
         # which raw value of the switch operand leads to a refusal (Ok(()) unreachable)?
@@ -696,7 +705,9 @@ def _shape(e, depth=0):
     if k == "c":
         nm = e[3] if len(e) > 3 and e[3] else None
         return (nm.split("::")[-1] if nm else str(e[1]))
-    if k in ("var", "arg"):
+    if k == "arg":
+        return "a%d" % e[1]
+    if k == "var":
         return "_"
     if k in ("ref", "deref", "unsize", "cast", "unwrapped"):
         inner = e[2] if k == "ref" else (e[3] if k == "cast" else e[1])
@@ -706,10 +717,17 @@ def _shape(e, depth=0):
     if k == "len":
         return "len(" + _shape(e[1], depth + 1) + ")"
     if k == "bin":
-        return "%s(%s,%s)" % (e[1], _shape(e[2], depth + 1), _shape(e[3], depth + 1))
+        a_, b_ = _shape(e[2], depth + 1), _shape(e[3], depth + 1)
+        # arithmetic over locals and literals only: a named temporary more or less must not change the shape
+        plain = lambda s_: s_ == "_" or s_.lstrip("-").isdigit() or s_ in ("size_of()", "align_of()")
+        if plain(a_) and plain(b_) and (a_ == "_" or b_ == "_"):
+            return "_"
+        return "%s(%s,%s)" % (e[1], a_, b_)
     if k == "un":
         return "%s(%s)" % (e[1], _shape(e[2], depth + 1))
     if k == "call":
+        if e[1].split("::")[-1] in ("size_of", "align_of"):
+            return e[1].split("::")[-1] + "()"
         return e[1].split("::")[-1] + "(" + ",".join(_shape(a, depth + 1) for a in e[2]) + ")"
     if k in ("index", "cindex"):
         return _shape(e[1], depth + 1) + "[]"
@@ -785,3 +803,74 @@ def _check_assert_inventory(prog, rep, rule, fid, site, key, at):
     rep.ob(rule, key + " | asserted relation", False,
            "the reviewed assert demanded `%s`; it now demands `%s`%s: the review does not cover the stronger condition (a value on the old boundary now panics)"
            % (want, cur, "" if st else " (different operands)"), at)
+
+
+# ------------------------------------------------------------------------------------------------------------
+# refusal-relation inventory for the parsing / validating crates that have no tests of their own
+REFUSAL_SCOPE = ("libtw2_datafile::", "libtw2_map::reader::", "libtw2_map::format::", "libtw2_demo::", "libtw2_zlib_minimal::",
+                 "libtw2_snapshot::format::", "libtw2_teehistorian::format::", "libtw2_packer::")
+
+
+def _success_variants(body):
+    sig = body.raw.get("sig") or ""
+    ret = sig.rsplit("->", 1)[-1] if "->" in sig else ""
+    if "Result<" in ret:
+        return ("Ok",)
+    if "Option<" in ret:
+        return ("Some",)
+    return ()
+
+
+def refusal_shapes(body, ir):
+    """sorted canonical texts of the relations under which `body` fails (its success variant becomes unreachable)"""
+    out = []
+    for var in _success_variants(body):
+        for a, op, b_, ln in refusal_relations(body, ir, var):
+            sh = assert_shape((a, op, b_))
+            if "max_level" in sh or "max_log_level" in sh:
+                continue        # the level test inside the log macros
+            out.append(sh)
+    return sorted(out)
+
+
+def check_refusal_inventory(prog, rep, rule, prefixes):
+    """the functions under `prefixes` fail under the same comparisons as on the reviewed tree: a relation whose operands are
+    still compared but with another operator is a changed acceptance condition; a relation that vanished is a dropped (or
+    rewritten: then re-review and regenerate) clause.  New clauses are not reported."""
+    import re as _re
+    from .tables import refusals as _ref
+    n = 0
+    for fid, frozen in sorted(_ref.REFUSALS.items()):
+        if not any(fid.startswith(p) or fid.startswith("<" + p) for p in prefixes):
+            continue
+        b = prog.bodies.get(fid)
+        if b is None:
+            rep.ob(rule, "%s | present" % fid, False, "function `%s` with %d reviewed refusal clauses no longer exists" % (fid, len(frozen)))
+            continue
+        cur = refusal_shapes(b, _IR(b))
+        n += 1
+        if cur == frozen:
+            rep.ob(rule, fid, True, "%d refusal relation(s) as reviewed" % len(frozen), b.loc(), nontrivial=bool(frozen))
+            continue
+        curset = list(cur)
+        problems = []
+        for f in frozen:
+            if f in curset:
+                curset.remove(f)
+                continue
+            m = _re.match(r"^(.*) (<=|>=|==|!=|<|>) (.*)$", f)
+            same = None
+            if m:
+                for c_ in curset:
+                    m2 = _re.match(r"^(.*) (<=|>=|==|!=|<|>) (.*)$", c_)
+                    if m2 and (m2.group(1), m2.group(3)) == (m.group(1), m.group(3)):
+                        same = c_
+                        break
+            if same is not None:
+                curset.remove(same)
+                problems.append("refuses when `%s` instead of `%s`" % (same, f))
+            else:
+                problems.append("the clause `%s` is gone" % f)
+        rep.ob(rule, fid, not problems, "refusal relations as reviewed (plus %d new)" % len(curset) if not problems else
+               "; ".join(problems)[:400], b.loc())
+    rep.floor(rule, n, 1, "functions with reviewed refusal relations under %s" % (prefixes,))
